@@ -123,6 +123,14 @@ CatchRet(cp, b) == Simple("catchret", "none", <<1, 1>>, <<>>, "", <<cp, RBlock(b
 CleanupRetCaller(cp) == Simple("cleanupret", "none", <<1, 0>>, <<>>, "", <<cp>>)
 
 Blk(name, insts, term) == [name |-> name, insts |-> insts, term |-> term]
+\* the same call with every operand and the result of (named) type ty
+Retyped(i, ty) == [i EXCEPT !.ops = [k \in 1..Len(i.ops) |-> [i.ops[k] EXCEPT !.ty = ty]], !.res = ty]
+MyInt   == TyNamed("myint", I64)
+MyInt32 == TyNamed("myint32", I32)
+MyPtr   == TyNamed("myptr", TyPtr(I32))
+MyArr   == TyNamed("myarr", TyArr(2, I32))
+MyVec   == TyNamed("myvec", TyVec(2, I32))
+MyFn    == TyNamed("myfn", TyFunc(TyVoid, <<I32>>, FALSE))
 \* a use of a result: freeze accepts every first-class type, so printing it shows the type the
 \* library derived for the operand and LLVM checks it against the type of the definition
 UseOf(ty, ref, name) ==
@@ -309,6 +317,33 @@ ModuleProgs == <<
        Fn("f", HTy, <<>>, FALSE, <<Blk("", <<>>, RetVal(HTy, RConst(CSimple("null", HTy))))>>)),
   Prog("mod:typedef", "module", BaseDecls \o <<DefGlobal("g", Concrete.nstruct, CSimple("zero", Concrete.nstruct)),
         DeclGlobal("e", TyPtr(Concrete.nstruct))>>, NoFn),
+  \* type definitions over fresh non-struct types (Module.NewTypeDef names a type by mutating it: the
+  \* harness builds the body with types.NewInt / NewPointer / NewArray / NewVector / NewFunc, as the
+  \* documentation of NewTypeDef prescribes); LLVM 14 reads `%t = type i64` as an alias
+  Prog("mod:typedef-int", "module", BaseDecls \o <<DefGlobal("g", MyInt, CInt(MyInt, 7))>>,
+       Fn("f", MyInt, <<[name |-> "x", ty |-> MyInt]>>, FALSE,
+          <<Blk("", <<Retyped(Simple("add", "i64", <<1, 1>>, <<>>, "r", <<RParam(1), RConst(CInt(MyInt, 1))>>), MyInt)>>, RetVal(MyInt, RInst(1, 1)))>>)),
+  Prog("mod:typedef-int32", "module", BaseDecls \o <<DefGlobal("g", MyInt32, CInt(MyInt32, 7))>>,
+       Fn("f", MyInt32, <<[name |-> "", ty |-> MyInt32]>>, FALSE,
+          <<Blk("", <<Retyped(Simple("mul", "i32", <<1, 1>>, <<>>, "", <<RParam(1), RParam(1)>>), MyInt32)>>, RetVal(MyInt32, RInst(1, 1)))>>)),
+  Prog("mod:typedef-ptr", "module", BaseDecls \o <<DefGlobal("g", MyPtr, CSimple("null", MyPtr))>>,
+       Fn("f", I32, <<[name |-> "p", ty |-> MyPtr]>>, FALSE,
+          <<Blk("", <<[Simple("store", "i32", <<1, 1>>, <<>>, "", <<RConst(CInt(I32, 5)), RParam(1)>>) EXCEPT !.ops[2].ty = MyPtr],
+                      [Simple("load", "i32", <<1>>, <<>>, "r", <<RParam(1)>>) EXCEPT !.ops[1].ty = MyPtr]>>, RetVal(I32, RInst(1, 2)))>>)),
+  Prog("mod:typedef-arr", "module", BaseDecls \o <<DefGlobal("g", MyArr, CSimple("zero", MyArr))>>,
+       Fn("f", I32, <<[name |-> "a", ty |-> MyArr]>>, FALSE,
+          <<Blk("", <<[Simple("extractvalue", "arr", <<1>>, <<>>, "r", <<RParam(1)>>) EXCEPT !.ops[1].ty = MyArr]>>, RetVal(I32, RInst(1, 1)))>>)),
+  Prog("mod:typedef-vec", "module", BaseDecls \o <<DefGlobal("g", MyVec, CSimple("zero", MyVec))>>,
+       Fn("f", MyVec, <<[name |-> "v", ty |-> MyVec]>>, FALSE,
+          <<Blk("", <<Retyped(Simple("xor", "vec", <<1, 1>>, <<>>, "r", <<RParam(1), RParam(1)>>), MyVec)>>, RetVal(MyVec, RInst(1, 1)))>>)),
+  Prog("mod:typedef-func", "module", BaseDecls \o <<DefGlobal("g", TyPtr(MyFn), CSimple("null", TyPtr(MyFn)))>>,
+       Fn("f", TyVoid, <<[name |-> "fp", ty |-> TyPtr(MyFn)]>>, FALSE, <<Blk("", <<>>, RetVoid)>>)),
+  \* every predeclared type of the types package in one module (the canary of the isolation law)
+  Prog("mod:singletons", "module", BaseDecls,
+       Fn("f", I64, <<[name |-> "a", ty |-> I1], [name |-> "b", ty |-> I8], [name |-> "c", ty |-> I16], [name |-> "d", ty |-> I32],
+                      [name |-> "e", ty |-> I64], [name |-> "g", ty |-> TyInt(128)], [name |-> "h", ty |-> F32], [name |-> "i", ty |-> F64],
+                      [name |-> "j", ty |-> I8Ptr], [name |-> "k", ty |-> TyFP("half")]>>, FALSE,
+          <<Blk("", <<>>, RetVal(I64, RParam(5)))>>)),
   Prog("mod:unnamed-globals", "module", <<DefGlobal("", I32, CInt(I32, 1)), DefGlobal("", I8, CInt(I8, 2)), DefGlobal("x", TyPtr(I32), CGRef("0", TyPtr(I32)))>>, NoFn),
   Prog("mod:blockaddress", "module", BaseDecls \o <<DefGlobal("ba", I8Ptr, [c |-> "blockaddress", f |-> "f", b |-> 2])>>,
        Fn("f", TyVoid, <<>>, FALSE, <<Blk("entry", <<>>, Br(2)), Blk("t", <<>>, RetVoid)>>)),
